@@ -23,7 +23,8 @@ POPULATE = (("memo", 0, "s", None), ("memo", 1, "X", None), ("memo", 2, "t", "ov
 VARIANTS = ["arg", "config", "cluster-config", "arg+cache", "cluster-config+cache", "mem", "arg+damaged", "cluster-config+cache+damaged",
             "config-reused", "cluster-config-reused",
             "arg+linkbroken", "arg+cache+linkbroken", "arg+truncated",
-            "arg-over-config+rebuilt"]  # read_only=True given over a config that says "readonly": False, then dumped and rebuilt  # "+linkbroken": the memento link of one call (key 0) was left empty by an interrupted write  # "-reused": the configuration dict object had already been used to build a backend
+            "arg-over-config+rebuilt",
+            "arg+copied", "cluster-config+cache+copied"]  # "+copied": the populated store was copied to another directory and the COPY is opened read-only (its links name files by the path they were written under)  # read_only=True given over a config that says "readonly": False, then dumped and rebuilt  # "+linkbroken": the memento link of one call (key 0) was left empty by an interrupted write  # "-reused": the configuration dict object had already been used to build a backend
 
 _roots = {}
 
@@ -96,6 +97,15 @@ class RORun:
                 raise HarnessError("cannot find the data object of key 0 to remove it: %s" % path)
             os.unlink(path)
             self.damaged = 0
+        self.extra_roots = []
+        if "copied" in variant:
+            import shutil
+
+            cdir = w.root.rstrip("/") + "-copy"
+            rm(cdir)
+            shutil.copytree(w.root, cdir, symlinks=True)
+            self.extra_roots = [w.dpath, w.mpath]  # (the original must stay untouched as well)
+            w.dpath, w.mpath = os.path.join(cdir, "d"), os.path.join(cdir, "m")
         cache = 4096 / MB if "cache" in variant else None
         if kind == "fs":
             if variant.startswith("arg-over-config"):
@@ -118,8 +128,8 @@ class RORun:
                     m.FunctionCluster(config={"name": "vfc", "storage": sc})
                 cluster = m.FunctionCluster(config={"name": "vfc", "storage": sc})
                 be = cluster.storage
-            self.roots = [w.dpath, w.mpath]
-            self.digest0 = (storeh.tree_digest(w.dpath), storeh.tree_digest(w.mpath))
+            self.roots = [w.dpath, w.mpath] + self.extra_roots
+            self.digest0 = tuple(storeh.tree_digest(r) for r in self.roots)
         else:
             be = MemoryStorageBackend(read_only=True) if True else None
             be.mementos.update({k: dict(v) for k, v in w.be.mementos.items()})
@@ -148,7 +158,7 @@ class RORun:
     def digest(self):
         if self.variant == "mem":
             return mem_snapshot(self.be)
-        return (storeh.tree_digest(self.w.dpath), storeh.tree_digest(self.w.mpath))
+        return tuple(storeh.tree_digest(r) for r in self.roots)
 
     def canon(self):
         c = getattr(self.be, "_memory_cache", None)
